@@ -1,7 +1,174 @@
 import Driver.Util
-/- Sub-protocol `C15`: not built yet. -/
-namespace Driver.C15
+import ZxVerif.Spec.Loaders
+/-
+Sub-protocol `C15`: loader models (explicit partiality) and the totality spec.
 
-def proto : Driver.Proto := { σ := Unit, init := (), handle := fun s _ => (s, "unimplemented") }
+  <fix>    hex bit mask over `Site.all` (bit i set = site i repaired)
+  <recv>   <m128 0|1> <locked 0|1> <bank hex> <ay 0|1>
+  <script> <chunk hex (0 = unlimited)> <failing read index hex | -> <failing seek index hex | -> <eofZero 0|1>
+  <bytes>  comma separated segments: h<hex bytes> | z<count hex>x<byte hex> | - (empty)
+
+  sna <fix> <recv> <script> <bytes>
+  szx <fix> <recv> <script> <bytes> <inflate>     inflate: `-` or off:res,off:res (res = hex length | x = error)
+  scr <fix> <recv> <script> <bytes>
+  rom <m128> <script> <bytes> [<script> <bytes> ...]
+  vtx <fix> <script> <bytes> <produced hex | p = the LH5 decoder panics>
+        -> <ok|err|panic|hang> <detail> <maxAlloc hex> <steps hex> <allocBound hex> <stepBound hex>
+  tap <script> <bytes> <op;op;...>    ops: p s r c<hex> k<count hex>:<clocks hex> b y f<f>:<a>:<de>:<ix>
+        -> per op, comma separated: ok[:value] | err:<kind> | panic:<site> | hang
+  judge <len hex> <extra hex> <acceptable 0|1> <maxAlloc hex>   -> ok | badOutcome | badAlloc
+-/
+namespace Driver.C15
+open ZxVerif.Loaders
+
+def lastName (s : String) : String := (s.splitOn ".").getLast!
+
+def siteName (p : Site) : String := lastName (toString (repr p))
+
+def ioName : IoErr → String
+  | .unexpectedEof => "eof" | .writeZero => "writeZero"
+  | .seekBeforeStart => "seekBeforeStart" | .hostFailed => "hostFailed"
+
+def errName : ErrKind → String
+  | .io e => "io." ++ ioName e
+  | .moreAssetsRequired => "moreAssetsRequired"
+  | .invalidTap => "invalidTap"
+  | .invalidScr => "invalidScr" | .scrMachineNotSupported => "scrMachineNotSupported"
+  | .invalidSna => "invalidSna" | .invalidSzx => "invalidSzx"
+  | .machineNotSupported => "machineNotSupported" | .zlibNotSupported => "zlibNotSupported"
+  | .vtxHeader => "vtxHeader" | .vtxIo => "vtxIo" | .vtxDecompress => "vtxDecompress"
+
+def outcomeStr : Outcome → String
+  | .ok => "ok -"
+  | .err k => "err " ++ errName k
+  | .panic p => "panic " ++ siteName p
+  | .hang => "hang -"
+
+def outcomeShort : Outcome → String
+  | .ok => "ok"
+  | .err k => "err:" ++ errName k
+  | .panic p => "panic:" ++ siteName p
+  | .hang => "hang"
+
+def parseFix (s : String) : Fix :=
+  let m := hexNatD s
+  fun p => m.testBit (Site.all.idxOf p)
+
+def parseSeg (acc : Array Byte) (seg : String) : Array Byte :=
+  if seg.startsWith "h" then
+    (hexBytes (seg.drop 1).toString).foldl (fun a b => a.push b) acc
+  else if seg.startsWith "z" then
+    match ((seg.drop 1).toString).splitOn "x" with
+    | [n, b] => acc ++ Array.replicate (hexNatD n) (bv8 b)
+    | _ => acc
+  else acc
+
+def parseBytes (s : String) : Array Byte :=
+  (s.splitOn ",").foldl parseSeg #[]
+
+def optIdx (s : String) : List Nat := match hexNat? s with | some n => [n] | none => []
+
+def parseScript (chunk fr fs ez : String) : Script :=
+  let c := hexNatD chunk
+  { chunk := fun _ => c, readFails := optIdx fr, seekFails := optIdx fs, eofZero := boolD ez }
+
+def mkAsset (b : Array Byte) (sc : Script) : Asset :=
+  { len := b.size, byte := fun i => b.getD i 0, sc := sc }
+
+def parseRecv (m l b a : String) : Recv :=
+  { m128 := boolD m, locked := boolD l, bank := hexNatD b, ay := boolD a }
+
+def parseInflate (s : String) : Inflate :=
+  let tbl : List (Nat × Option Nat) := (s.splitOn ",").filterMap fun e =>
+    match e.splitOn ":" with
+    | [o, r] => some (hexNatD o, hexNat? r)
+    | _ => none
+  fun off _ => (tbl.lookup off).getD none
+
+def hx (n : Nat) : String := String.ofList (Nat.toDigits 16 n)
+
+def resStr (r : Res) (len extra : Nat) : String :=
+  s!"{outcomeStr r.outcome} {hx r.maxAlloc} {hx r.steps} {hx (Spec.allocBound len extra)} {hx (Spec.stepBound len)}"
+
+def parseOp (s : String) : Option TapOp :=
+  if s = "p" then some .play else if s = "s" then some .stop else if s = "r" then some .rewind
+  else if s = "b" then some .nextBlock else if s = "y" then some .nextByte
+  else if s.startsWith "c" then some (.clocks (hexNatD (s.drop 1).toString))
+  else if s.startsWith "k" then
+    match ((s.drop 1).toString).splitOn ":" with
+    | [n, c] => some (.repeatClocks (hexNatD n) (hexNatD c))
+    | _ => none
+  else if s.startsWith "f" then
+    match ((s.drop 1).toString).splitOn ":" with
+    | [f, a, de, ix] => some (.fastLoad { f := hexNatD f, acc := hexNatD a, de := hexNatD de, ix := hexNatD ix })
+    | _ => none
+  else none
+
+/-- runs one tape operation and renders its result (values included) -/
+def tapOp (t : Tap) : TapOp → String × Tap
+  | .play => ("ok", t.play)
+  | .stop => ("ok", t.stop)
+  | .rewind => match t.rewind with
+    | (.ok _, t') => ("ok", t') | (.stop o, t') => (outcomeShort o, t')
+  | .clocks n => match t.processClocks n with
+    | (.ok _, t') => ("ok", t') | (.stop o, t') => (outcomeShort o, t')
+  | .repeatClocks n c => match Tap.repeatClocks n c t with
+    | (.ok _, t') => ("ok", t') | (.stop o, t') => (outcomeShort o, t')
+  | .nextBlock => match t.nextBlock with
+    | (.ok b, t') => ("ok:" ++ bit b, t') | (.stop o, t') => (outcomeShort o, t')
+  | .nextByte => match t.nextBlockByte with
+    | (.ok (some b), t') => ("ok:" ++ toHex 2 b, t')
+    | (.ok none, t') => ("ok:-", t')
+    | (.stop o, t') => (outcomeShort o, t')
+  | .fastLoad g =>
+    if t.state = .stop then
+      match t.fastLoad (fun _ => 0) g with
+      | (.ok (g', fl), t') =>
+        (s!"ok:{hx g'.de}:{hx g'.ix}:{match fl with | some f => hx f | none => "-"}", t')
+      | (.stop o, t') => (outcomeShort o, t')
+    else ("ok:skip", t)
+
+def tapRun (t : Tap) : List TapOp → List String → List String
+  | [], acc => acc.reverse
+  | op :: ops, acc => let (s, t') := tapOp t op; tapRun t' ops (s :: acc)
+
+def romAssets : List String → Option (List Asset)
+  | [] => some []
+  | c :: fr :: fs :: ez :: b :: rest => do
+      let more ← romAssets rest
+      some (mkAsset (parseBytes b) (parseScript c fr fs ez) :: more)
+  | _ => none
+
+def handle (s : Unit) : List String → Unit × String
+  | ["sna", fx, m, l, b, ay, c, fr, fs, ez, bytes] =>
+    let a := mkAsset (parseBytes bytes) (parseScript c fr fs ez)
+    (s, resStr (M.run (snaLoad (parseFix fx) (parseRecv m l b ay)) a) a.len 0)
+  | ["szx", fx, m, l, b, ay, c, fr, fs, ez, bytes, inf] =>
+    let a := mkAsset (parseBytes bytes) (parseScript c fr fs ez)
+    (s, resStr (M.run (szxLoad (parseFix fx) (parseRecv m l b ay) (parseInflate inf)) a) a.len 0)
+  | ["scr", _, _, _, _, _, c, fr, fs, ez, bytes] =>
+    let a := mkAsset (parseBytes bytes) (parseScript c fr fs ez)
+    (s, resStr (M.run scrLoad a) a.len 0)
+  | "rom" :: m :: rest =>
+    match romAssets rest with
+    | some as =>
+      let len := (as.map (·.len)).foldl (· + ·) 0
+      (s, resStr (romLoad (Recv.init (boolD m) false) as) len 0)
+    | none => (s, "bad-op")
+  | ["vtx", fx, c, fr, fs, ez, bytes, produced] =>
+    let a := mkAsset (parseBytes bytes) (parseScript c fr fs ez)
+    let p := hexNat? produced
+    (s, resStr (M.run (vtxLoad (parseFix fx) p) a) a.len (Spec.vtxExtra (p.getD 0)))
+  | ["tap", c, fr, fs, ez, bytes, ops] =>
+    let a := mkAsset (parseBytes bytes) (parseScript c fr fs ez)
+    match (ops.splitOn ";").mapM parseOp with
+    | some os => (s, ",".intercalate (tapRun (Tap.fromAsset a) os []))
+    | none => (s, "bad-op")
+  | ["judge", len, extra, acc, alloc] =>
+    (s, match Spec.judge (hexNatD len) (hexNatD extra) (boolD acc) (hexNatD alloc) with
+        | .ok => "ok" | .badOutcome => "badOutcome" | .badAlloc => "badAlloc")
+  | _ => (s, "bad-op")
+
+def proto : Driver.Proto := { σ := Unit, init := (), handle := handle }
 
 end Driver.C15
